@@ -33,6 +33,8 @@ Mask(s, R, t0, t1, axis) ==
   [i \in 1..s[1] |-> [j \in 1..s[2] |-> [k \in 1..s[3] |-> Bit(s, R, t0, t1, axis, <<i, j, k>>)]]]
 (* union of a y-tilt and an x-tilt series: kept if kept by either; boundary if not kept but boundary in one *)
 Union2(a, b) == IF a = 1 \/ b = 1 THEN 1 ELSE IF a = 2 \/ b = 2 THEN 2 ELSE 0
+(* laws of the union: a member that keeps everything (no wedge) absorbs the union; the union is idempotent and commutative *)
+UnionLaws == \A a \in 0..2, b \in 0..2 : Union2(1, b) = 1 /\ Union2(a, 1) = 1 /\ Union2(a, a) = a /\ Union2(a, b) = Union2(b, a)
 
 Neg(i, n) == ((n - (i - 1)) % n) + 1                  \* bin of -k
 IsNyq(i, n) == n % 2 = 0 /\ i - 1 = n \div 2
